@@ -97,6 +97,10 @@ def run(tier, seed):
             outs["record-memoryview-writable"] = va(pol, rec(wmv), wmv)
             win = lambda b: memoryview(b"\x00\x01" + bytes(b) + b"\xff")[2:-1]      # a window into a larger buffer
             outs["record-memoryview-window"] = va(pol, rec(win), win)
+            # the expected challenge as a non-contiguous view (every second byte of a larger buffer); the other binary inputs stay bytes
+            kw_s = pol.kwargs()
+            kw_s["expected_challenge"] = memoryview(bytes(b for x in kw_s["expected_challenge"] for b in (x, 0xAA)))[::2]
+            outs["challenge-strided-memoryview"] = impl.outcome(lambda: webauthn.verify_authentication_response(credential=rec(bytes), **kw_s), impl.pr_verified_auth)
         chk.evals += len(outs)
         ref = outs["dict"]
         for k, v in outs.items():
@@ -139,6 +143,10 @@ def run(tier, seed):
             outs["record-memoryview-writable"] = vr(pol, rec(wmv), wmv)
             win = lambda b: memoryview(b"\x00\x01" + bytes(b) + b"\xff")[2:-1]
             outs["record-memoryview-window"] = vr(pol, rec(win), win)
+            kw_s = pol.kwargs()
+            kw_s["expected_challenge"] = memoryview(bytes(b for x in kw_s["expected_challenge"] for b in (x, 0xAA)))[::2]
+            with impl.substituted(pol.substitute, pol.now):
+                outs["challenge-strided-memoryview"] = impl.outcome(lambda: webauthn.verify_registration_response(credential=rec(bytes), **kw_s), impl.pr_verified_reg)
         chk.evals += len(outs)
         for k, v in outs.items():
             same = (v == base) or (v.startswith("ERR") and base.startswith("ERR"))
